@@ -264,6 +264,7 @@ type c15Ctx struct {
 	seen  map[string]bool
 	iupac bool // some sequence of the case holds a letter other than a c g t
 	hypKO bool // iupac case on which a kernel hypothesis of the model (hyp.d1or0, hyp.bounded-lcs) does not hold
+	verb  bool // fv/iv/dv: the model runs the verbatim kernels itself; only the candidate orders are handed over
 }
 
 // done: an IUPAC case on which the real kernels do not behave as the model reads them (D1Or0 compares bytes,
@@ -271,7 +272,10 @@ type c15Ctx struct {
 // operation the model does not know, which it answers by bad-op; Exec accepts the prefixed line on replay); the
 // oracle failures found on the real code are reported (signature suffix .iupac)
 func (x *c15Ctx) done(base, res string) (string, []Fail) {
-	if x.iupac && x.hypKO {
+	if x.iupac && x.hypKO && x.verb {
+		stat("iupac:kernel-hypothesis-fails:compared-with-verbatim-kernels")
+	}
+	if x.iupac && x.hypKO && !x.verb {
 		stat("iupac:kernel-hypothesis-fails:not-compared")
 		caseOverride = "iupac-kernel-hyp " + base
 		caseTrivial = true
@@ -470,6 +474,9 @@ func (x *c15Ctx) row(q []byte, refs [][]byte) ([]c15Pair, string) {
 	if len(la) > 0 {
 		l = strings.Join(la, ",")
 	}
+	if x.verb { // nothing measured is handed to the model
+		return ps, c15Ints(c15Order(cws))
+	}
 	return ps, c15Ints(c15Order(cws)) + " " + l
 }
 
@@ -564,6 +571,12 @@ func (c15) Exec(c string) (string, []Fail) {
 	}
 	x := &c15Ctx{}
 	op := w[0]
+	// the verbatim-kernel operations run the same real code; the model side differs (Model/TagV.lean)
+	if v, ok := map[string]string{"fv1": "fc1", "fv2": "fc2", "iv": "ix", "dv1": "id1", "dv2": "id2"}[op]; ok {
+		x.verb = true
+		stat("op:" + op)
+		op = v
+	}
 	switch op {
 	case "cw":
 		if len(w) != 3 {
@@ -1506,6 +1519,55 @@ func (g *c15Gen) taxids(t [][2]int, n int) []int {
 }
 
 // iupacify: one to three bases replaced by ambiguity codes
+// tiedFamily: references = the word w with ONE substitution (anywhere: near an end it keeps more 4-mers than an
+// interior indel and is scanned first), ONE interior insertion, ONE interior deletion and a second interior indel:
+// all at LCS distance 1 of the query w, with different shared counts (a regression that mishandles indels in a
+// prefilter - C15-m3: a bound on the LCS computed from the 4-mers, wrong across a gap - loses a tied reference
+// as soon as an indel variant is scanned after another best reference)
+func (g *c15Gen) tiedFamily(w []byte) [][]byte {
+	n := len(w)
+	interior := func() int { return 2 + g.rng.Intn(n-4) }
+	sub := append([]byte{}, w...)
+	i := g.rng.Intn(n)
+	sub[i] = g.other(sub[i])
+	insAt := func(i int) []byte {
+		r := append([]byte{}, w[:i]...)
+		r = append(r, "acgt"[g.rng.Intn(4)])
+		return append(r, w[i:]...)
+	}
+	delAt := func(i int) []byte {
+		r := append([]byte{}, w[:i]...)
+		return append(r, w[i+1:]...)
+	}
+	fam := [][]byte{sub, insAt(interior()), delAt(interior())}
+	if g.rng.Intn(2) == 0 {
+		fam = append(fam, insAt(interior()))
+	} else {
+		fam = append(fam, delAt(interior()))
+	}
+	return fam
+}
+
+func c15Perms(n int, f func([]int)) {
+	p := make([]int, n)
+	for i := range p {
+		p[i] = i
+	}
+	var rec func(k int)
+	rec = func(k int) {
+		if k == n {
+			f(p)
+			return
+		}
+		for i := k; i < n; i++ {
+			p[k], p[i] = p[i], p[k]
+			rec(k + 1)
+			p[k], p[i] = p[i], p[k]
+		}
+	}
+	rec(0)
+}
+
 func (g *c15Gen) iupacify(s []byte) []byte {
 	b := append([]byte{}, s...)
 	for i := 0; i < 1+g.rng.Intn(3) && len(b) > 0; i++ {
@@ -1743,6 +1805,42 @@ func (c15) Gen(rng *rand.Rand, tier string, emit func(string)) {
 		emit(c)
 	}
 
+	// ---- ties at distance 1 across interior indels, in every data-base order (seed C15-m3: an LCS bound derived from
+	// the shared 4-mers skipped tied references that differ from the query by an interior insertion / deletion)
+	{
+		w := []byte("acgtagctagcatcgatcgactag")
+		sub := append([]byte{}, w...)
+		sub[1] = 'a' // near the end: 22 - 2 shared 4-mers, scanned before the interior indels
+		ins := []byte("acgtagctagcaatcgatcgactag")
+		del := []byte("acgtagctagctcgatcgactag")
+		fam := [][]byte{sub, ins, del}
+		T := "1:1,2:1,3:2,4:2,5:1"
+		k := 0
+		c15Perms(3, func(p []int) {
+			refs := [][]byte{fam[p[0]], fam[p[1]], fam[p[2]]}
+			tx := []int{3 + p[0], 3 + p[1], 3 + p[2]}
+			emit(fmt.Sprintf("fc%d %s %s", 1+k%2, hx(w), c15List(refs)))
+			emit(fmt.Sprintf("fv%d %s %s", 2-k%2, hx(w), c15List(refs)))
+			emit(fmt.Sprintf("id%d %s %s %s %s", 1+k%2, hx(w), c15List(refs), c15Ints(tx), T))
+			emit(fmt.Sprintf("dv%d %s %s %s %s", 2-k%2, hx(w), c15List(refs), c15Ints(tx), T))
+			k++
+		})
+		// verbatim-kernel twins of corpus cases: D14, three ties at distance 1, ambiguity codes (the verbatim kernels are
+		// compared on them too), the D15 data base
+		emit("fv1 " + c15Hex(q30) + " " + c15Hex(d14r0) + "," + hx(d14r1))
+		emit("fv2 " + c15Hex(q30) + " " + c15Hex(d14r0) + "," + hx(d14r1))
+		emit("fv1 " + c15Hex("acgtacgtac") + " " + c15Hex("acgtacgta") + "," + c15Hex("acgtacgtacc") + "," + c15Hex("acgaacgtac"))
+		emit("fv1 " + c15Hex("ktagatak") + " " + c15Hex("atagatat") + "," + c15Hex("atagatat") + "," + c15Hex("atagatat"))
+		emit("fv2 " + c15Hex("acgtnacgtacgt") + " " + c15Hex("acgtaacgtacgt") + "," + c15Hex("acgtcacgtacgt"))
+		emit("fv1 " + c15Hex("a") + " " + c15Hex("a") + "," + c15Hex("c") + "," + c15Hex("aa"))
+		emit("fv2 " + c15Hex("acgtacgtac") + " _")
+		emit("iv 0 " + c15Hex("acgtacgtac") + "," + c15Hex("acgtacgtaa") + "," + c15Hex("acgtaggtaa") + " 4,5,3 1:1,2:1,3:1,4:2,5:2")
+		emit("iv 0 " + c15Hex("acgtrcgtac") + "," + c15Hex("acgtacgtac") + " 4,5 1:1,2:1,3:1,4:2,5:2")
+		emit("dv1 " + c15Hex("acgtacgtaa") + " " + c15Hex("acgtacgtac") + "," + c15Hex("acgtacgtag") + "," + c15Hex("acgtaggtaa") + " 4,5,3 1:1,2:1,3:1,4:2,5:2")
+		emit("dv2 " + c15Hex("acgtacgtaa") + " " + c15Hex("acgtacgtac") + "," + c15Hex("acgtacgtag") + "," + c15Hex("acgtaggtaa") + " 4,5,3 1:1,2:1,3:1,4:2,5:2")
+		emit("dv1 " + c15Hex("tttttttttt") + " " + c15Hex("acgacgacga") + " 2 1:1,2:1")
+	}
+
 	// ---- random cases
 	n := 1500
 	if tier == "thorough" {
@@ -1782,6 +1880,16 @@ func (c15) Gen(rng *rand.Rand, tier string, emit func(string)) {
 			k := g.rng.Intn(len(refs))
 			for i := 0; i < 6; i++ {
 				refs = append(refs, g.spreadSubs(refs[k], 1))
+			}
+		case 4, 5: // a family tied at distance 1 of the query across interior indels, shuffled into the data base
+			if len(q) >= 8 && c15Acgt(q) {
+				stat("gen:tied-indel-family")
+				refs = append(refs, g.tiedFamily(q)...)
+				g.rng.Shuffle(len(refs), func(i, j int) { refs[i], refs[j] = refs[j], refs[i] })
+				if g.rng.Intn(3) == 0 { // nothing but the family: the tie is at the best distance
+					refs = g.tiedFamily(q)
+					g.rng.Shuffle(len(refs), func(i, j int) { refs[i], refs[j] = refs[j], refs[i] })
+				}
 			}
 		}
 		t := g.taxo(1 + g.rng.Intn(12))
@@ -1827,16 +1935,30 @@ func (c15) Gen(rng *rand.Rand, tier string, emit func(string)) {
 			emit(fmt.Sprintf("%s %s %s %s %s %s", op, hx(q), c15List(refs), c15Ints(tx), c15Taxo(t), c15ShowGiven(giv)))
 			continue
 		}
+		// one case in three is run by the model with the VERBATIM kernels (fv / iv / dv: Model/TagV.lean)
+		verb := g.rng.Intn(3) == 0
 		switch r := g.rng.Intn(20); {
 		case r < 7:
-			emit(fmt.Sprintf("fc%d %s %s", 1+g.rng.Intn(2), hx(q), c15List(refs)))
+			if verb {
+				emit(fmt.Sprintf("fv%d %s %s", 1+g.rng.Intn(2), hx(q), c15List(refs)))
+			} else {
+				emit(fmt.Sprintf("fc%d %s %s", 1+g.rng.Intn(2), hx(q), c15List(refs)))
+			}
 		case r < 13:
-			emit(fmt.Sprintf("ix %d %s %s %s", g.rng.Intn(len(refs)), c15List(refs), c15Ints(tx), c15Taxo(t)))
+			if verb {
+				emit(fmt.Sprintf("iv %d %s %s %s", g.rng.Intn(len(refs)), c15List(refs), c15Ints(tx), c15Taxo(t)))
+			} else {
+				emit(fmt.Sprintf("ix %d %s %s %s", g.rng.Intn(len(refs)), c15List(refs), c15Ints(tx), c15Taxo(t)))
+			}
 		case r < 18:
 			if len(refs) > 14 {
 				refs, tx = refs[:14], tx[:14]
 			}
-			emit(fmt.Sprintf("id%d %s %s %s %s", 1+g.rng.Intn(2), hx(q), c15List(refs), c15Ints(tx), c15Taxo(t)))
+			if verb {
+				emit(fmt.Sprintf("dv%d %s %s %s %s", 1+g.rng.Intn(2), hx(q), c15List(refs), c15Ints(tx), c15Taxo(t)))
+			} else {
+				emit(fmt.Sprintf("id%d %s %s %s %s", 1+g.rng.Intn(2), hx(q), c15List(refs), c15Ints(tx), c15Taxo(t)))
+			}
 		case r < 19:
 			emit(fmt.Sprintf("cw %s %s", hx(q), hx(refs[0])))
 		default:
